@@ -23,6 +23,14 @@ ASSUME = [
     "in any address space (full scan of all page tables after every call)",
     "trusted Go: software MMU, memfd aliasing, state projection, content-id table (SHA-1 of the 4 KiB) and event logger in "
     "harness/vmm/c06_cow_test.go (no expected results in them); frame number = host address >> 12",
+    "input classes generated since the quantifier audit: fault offsets 0/1/2048/4095 in leg G (were 0), the entry bits without "
+    "meaning here (write-through, cache-disable, accessed, dirty, PAT, global, available 10/11/52/58, protection key 62) on the "
+    "faulting entry, on upper levels and in Map requests, Map requests without the present bit, error codes up to 2^40, faults "
+    "handled while a second address space is active, temporary-mapping tables missing so that MapTemporary itself allocates "
+    "(allocation failure at steps 2-4), fault addresses below never-created tables",
+    "classes not covered: huge-page bit on upper levels (see above); fault addresses are representatives (6 universe pages at four "
+    "offsets + 17 other addresses incl. non-canonical, kernel half, temporary page, recursive window), not all 2^64; reserved "
+    "physical-address bits 12-51 are never used as flags",
     "after a panic the case ends (the kernel is dead); nothing is required of the state a panicking handler leaves behind",
 ]
 
